@@ -123,10 +123,12 @@ func (c *Cluster) handleListOffsets(creq *clientReq) (kmsg.Response, error) {
 				if meta == nil {
 					sp.Offset = -1
 				} else {
-					sp.Offset = meta.firstOffset
-					sp.Timestamp = meta.firstTimestamp
+					sp.Offset = -1
+					sp.Timestamp = -1
 					sp.LeaderEpoch = meta.epoch
-					// Read the full batch to iterate records for precise timestamp
+					// Read the full batch to iterate records for precise timestamp:
+					// the answer is the first record at or after the log start
+					// offset whose timestamp is at least the requested one.
 					batch, err := c.readBatchFull(pd, segIdx, meta)
 					if err != nil {
 						sp.ErrorCode = kerr.CorruptMessage.Code
@@ -135,7 +137,7 @@ func (c *Cluster) handleListOffsets(creq *clientReq) (kmsg.Response, error) {
 					err = forEachBatchRecord(batch.RecordBatch, func(rec kmsg.Record) error {
 						timestamp := batch.FirstTimestamp + rec.TimestampDelta64
 						offset := batch.FirstOffset + int64(rec.OffsetDelta)
-						if timestamp <= rp.Timestamp {
+						if sp.Offset == -1 && timestamp >= rp.Timestamp && offset >= pd.logStartOffset {
 							sp.Offset = offset
 							sp.Timestamp = timestamp
 						}
@@ -144,6 +146,11 @@ func (c *Cluster) handleListOffsets(creq *clientReq) (kmsg.Response, error) {
 					if err != nil {
 						sp.ErrorCode = kerr.CorruptMessage.Code
 						continue
+					}
+					// read_committed lookups only see offsets below the last stable offset.
+					if req.IsolationLevel == 1 && sp.Offset >= pd.lastStableOffset {
+						sp.Offset = -1
+						sp.Timestamp = -1
 					}
 				}
 			}
